@@ -4,6 +4,7 @@ from checks import proto_common as pc
 QUICK = [
     ("arb-lock3", ["req=0:3115b50901a9", "submit=1", "qq=03", "zz=fe", "nn=0", "snn=0", "win=03,11", "buslost=1"]),
     ("chunk2-arb", ["chunk2=1", "req=0:3115b5090100", "submit=1", "nn=0", "snn=0", "qq=03", "zz=fe", "win=03,11", "echofaults=0", "buslost=1"]),
+    ("answer-and-request", ["answer=1", "ans=aa:36:b509:-:00", "req=0:31feb50900", "submit=1", "qq=03", "zz=36,fe", "nn=0", "snn=0", "win=03", "echofaults=0"]),
     ("readonly", ["req=0:3115b5090142", "submit=1", "qq=03", "zz=fe,15", "nn=0", "snn=0", "readonly=1"]),
     ("enh-arb", ["enhanced=1", "req=0:3115b5090100", "submit=1", "qq=03", "zz=fe", "nn=0", "snn=0", "win=03,11", "buslost=1", "echofaults=0"]),
     ("gensyn", ["gensyn=1", "req=0:31feb50900", "submit=1", "qq=03", "zz=fe", "nn=0", "snn=0", "win=03", "echofaults=0"]),
@@ -12,7 +13,6 @@ THOROUGH = QUICK + [
     ("arb-lock3-full", ["req=0:3115b50901a9", "submit=1", "qq=03", "zz=fe", "nn=0", "snn=1", "win=03,11,15", "buslost=2", "maxnodes=1500000"]),
     ("arb-lock5", ["req=0:3115b50901a9", "submit=1", "qq=03", "zz=fe", "nn=0", "snn=1", "win=03,11,15", "buslost=2", "lock=5", "maxnodes=1500000"]),
     ("arb-submit-always", ["req=0:3115b5090100", "submit=2", "qq=03", "zz=fe,15", "nn=0", "snn=0", "win=03,11", "buslost=1", "echofaults=0", "maxnodes=1500000"]),
-    ("answer-and-request", ["answer=1", "ans=aa:36:b509:-:00", "req=0:31feb50900", "submit=1", "qq=03", "zz=36,fe", "nn=0", "snn=0", "win=03", "echofaults=0"]),
 ]
 
 
@@ -20,4 +20,5 @@ def run(ctx):
     n = 400000 if ctx.thorough else 40000
     rnd = [("rnd-plain", n, ["req=0:3115b50900", "req=1:3115b50900", "buslost=1", "lock=5"]),
            ("rnd-enh", n, ["enhanced=1", "req=0:3115b50900", "buslost=1"])]
-    pc.run_configs(ctx, "C03", "t", THOROUGH if ctx.thorough else QUICK, random_runs=rnd)
+    pc.run_configs(ctx, "C03", "t", THOROUGH if ctx.thorough else QUICK, random_runs=rnd,
+                   spec_fidelity=[("S:chunk2-arb", ["chunk2=1", "req=0:3115b5090100", "submit=1", "nn=0", "snn=0", "qq=03", "zz=fe", "win=03,11", "echofaults=0", "buslost=1"], 8)])
